@@ -332,7 +332,22 @@ func checkC15(e *Env) {
 	errKinds.Add("calls_inside_histories", histCalls)
 
 	// the concurrent flavour of this monitor (C12 is the full treatment)
-	concCalls := e.concurrentSmoke(drv, "C15", e.smokePool("C15", "chk"), e.pick(2, 12), e.pick(300, 1500), e.smokeErrClass())
+	// its own pool: mostly 12-word sentences whose only defect is the checksum (a wrongly computed
+	// checksum matches one time in sixteen), next to both generators
+	cpool := e.smokePool("C15", "chk")
+	{
+		r := rng.New(e.Seed, "C15-concpool")
+		for k := 0; k < 24; k++ {
+			l := k % ref.NLang
+			w := m.Words(r.Bytes(16), l)
+			w[len(w)-1] = m.List[l][m.Index[l][w[len(w)-1]]^(1+k%3)]
+			if _, st, _ := m.Dec(w, l); st == ref.BadChecksum {
+				cpool = append(cpool, plan.Op{Fn: "chk", L: int64(l), S: hxs(strings.Join(w, " "))})
+			}
+			cpool = append(cpool, plan.Op{Fn: "enc", L: int64(l), E: hx(r.Bytes(ref.EntSizes[k%5]))})
+		}
+	}
+	concCalls := e.concurrentSmoke(drv, "C15", cpool, e.pick(8, 32), e.pick(1500, 4000), e.smokeErrClass())
 
 	if e.Violations() == 0 && (byDefect.Get("count") == 0 || byDefect.Get("checksum") == 0 || byDefect.Get("unknown") == 0) {
 		fatalInconclusive("C15: a defect class was not explored")
